@@ -612,7 +612,14 @@ func forwardTarget(fn *ssa.Function) *ssa.Function {
 	}
 	var target *ssa.Function
 	nRet := 0
+	nCalls := 0
+	var only *ssa.Call
+	prefix := false // hands on all results of the target but its trailing error (`v, _ := tryX(a); return v`)
 	for _, b := range fn.Blocks {
+		// the way out for the dropped error: `if err != nil { panic(err.Error()) }`
+		if _, isPanic := b.Instrs[len(b.Instrs)-1].(*ssa.Panic); isPanic {
+			continue
+		}
 		var call *ssa.Call
 		for _, in := range b.Instrs {
 			switch x := in.(type) {
@@ -621,13 +628,27 @@ func forwardTarget(fn *ssa.Function) *ssa.Function {
 					return nil
 				}
 				call = x
+				if nCalls++; nCalls == 1 {
+					only = x
+				} else {
+					only = nil
+				}
 			case *ssa.Return:
 				nRet++
+				if call == nil && only != nil {
+					call = only // (the one call of the function, made in a block in front of this one)
+				}
 				if call == nil {
 					return nil
 				}
 				// results handed on as they are
 				if len(x.Results) == 1 {
+					if ex, isEx := x.Results[0].(*ssa.Extract); isEx && ex.Tuple == ssa.Value(call) && ex.Index == 0 {
+						if tup, isT := call.Type().(*types.Tuple); isT && tup.Len() == 2 && types.Identical(tup.At(1).Type(), types.Universe.Lookup("error").Type()) {
+							prefix = true
+							continue
+						}
+					}
 					if x.Results[0] != ssa.Value(call) {
 						return nil
 					}
@@ -665,6 +686,12 @@ func forwardTarget(fn *ssa.Function) *ssa.Function {
 				return nil
 			}
 		}
+	}
+	if prefix {
+		if target == nil || nRet == 0 || target.Signature.Results().Len() != fn.Signature.Results().Len()+1 {
+			return nil
+		}
+		return target
 	}
 	if target == nil || nRet == 0 || target.Signature.Results().Len() != fn.Signature.Results().Len() {
 		return nil
